@@ -49,7 +49,11 @@
 (***************************************************************************)
 EXTENDS Naturals, Integers, Sequences, FiniteSets, TLC
 
-CONSTANTS AntiReplay,   \* endpoints (subset of {"C","S"}) that discard a record whose (epoch, sequence number) they
+CONSTANTS Buffers,      \* endpoints (subset of {"C","S"}) that keep what arrives early - handshake messages with a
+                        \* message_seq ahead of the expected one, a protected Finished before the keys exist - and
+                        \* consume it as soon as it fits (the reference does; rustrtc ignores such messages and
+                        \* relies on retransmission)
+          AntiReplay,   \* endpoints (subset of {"C","S"}) that discard a record whose (epoch, sequence number) they
                         \* have already seen (RFC 6347 4.1.2.6): rustrtc has no such window, the reference has
           ServerHvr,    \* TRUE: the server answers a cookie-less ClientHello with a HelloVerifyRequest
                         \* (rustrtc's server never does; the reference implementation's server does)
@@ -107,7 +111,7 @@ InitEp(e, cert, key, dh, rnd, expFp) ==
    tr |-> <<>>, cr |-> "-", sr |-> "-", prof |-> "-",
    cert |-> cert, key |-> key, dh |-> dh, rnd |-> rnd, expFp |-> expFp,
    peerCert |-> "-", skeOk |-> FALSE, cvOk |-> FALSE, crSeen |-> FALSE, peerDh |-> "-",
-   keys |-> NoMaster, last |-> <<>>, frag |-> NoFrag, seenRec |-> {},
+   keys |-> NoMaster, last |-> <<>>, frag |-> NoFrag, seenRec |-> {}, ooo |-> {}, early |-> {},
    appGot |-> 0, appBad |-> 0, started |-> FALSE]
 
 \* Who runs an endpoint: "certC"/"certS" the genuine party; "certM" the adversary with its own certificate and
@@ -327,14 +331,34 @@ DupResults(s, m) ==
   IN IF MustAnswerDup(s, m) THEN {yes} ELSE IF Lax THEN {yes, no} ELSE {no}
 
 \* process_handshake_payload: message_seq filtering, post-HVR resynchronisation, reassembly.
+\* A buffering endpoint consumes what it kept as soon as it has become the expected message.
+RECURSIVE Drain(_)
+Drain(r) ==
+  LET B == {b \in r.s.ooo : b.ms = r.s.recvSeq}
+  IN IF r.s.role \notin Buffers \/ B = {} \/ r.s.st = "Failed" THEN r
+     ELSE LET b  == CHOOSE x \in B : TRUE
+              r2 == Reassemble([r.s EXCEPT !.ooo = @ \ {b}], b)
+          IN Drain(Res(r2.s, r.out \o r2.out))
+
 \* After a HelloVerifyRequest the client accepts the ServerHello at whatever message_seq the server restarts
 \* with (0 per RFC 6347 4.2.1, HVR + 1 in some implementations) and nothing else before it.
 HsResults(s, m) ==
   IF PostHvrWaits(s, m) THEN {Res(s, <<>>)}
   ELSE LET s0 == Resynced(s, m) IN
        IF m.ms < s0.recvSeq THEN DupResults(s0, m)
-       ELSE IF m.ms > s0.recvSeq THEN {Res(s0, <<>>)}                    \* out of order: ignored
-       ELSE {Reassemble(s0, m)}
+       ELSE IF m.ms > s0.recvSeq
+       THEN IF s0.role \in Buffers /\ m.lo = 0 /\ m.hi = Units
+            THEN {Res([s0 EXCEPT !.ooo = @ \cup {m}], <<>>)}             \* kept until it fits
+            ELSE {Res(s0, <<>>)}                                          \* out of order: ignored
+       ELSE {Drain(Reassemble(s0, m))}
+
+\* A protected Finished that was kept because it arrived before the keys: consumed once they exist.
+EarlyFin(r) ==
+  IF r.s.early = {} \/ r.s.keys = NoMaster \/ r.s.st = "Failed" THEN {r}
+  ELSE LET f == CHOOSE x \in r.s.early : TRUE
+           s1 == [r.s EXCEPT !.early = {}]
+       IN IF ~CanDecrypt(s1, f) THEN {Res(s1, r.out)}
+          ELSE {Res(r2.s, r.out \o r2.out) : r2 \in HsResults(s1, f)}
 
 \* One record arriving at an endpoint (handle_incoming_packet / handle_decrypted_record).
 \* The result is a set: the contract leaves some choices free.
@@ -345,8 +369,9 @@ RecvResults(s0, m) ==
            s == IF s0.role \in AntiReplay /\ valid THEN [s0 EXCEPT !.seenRec = @ \cup {RecKey(m)}] ELSE s0 IN
   IF m.t = "CCS" THEN {Res(s, <<>>)}
   ELSE IF m.t \in {"FIN", "APP"} /\ ~Plaintext(m) /\ ~CanDecrypt(s, m)
-  THEN {Res(IF m.t = "APP" /\ s.st = "Connected" THEN [s EXCEPT !.appBad = s.appBad + 1] ELSE s, <<>>)}
-                                                                         \* undecryptable record: dropped
+  THEN {Res(IF m.t = "APP" /\ s.st = "Connected" THEN [s EXCEPT !.appBad = s.appBad + 1]
+            ELSE IF m.t = "FIN" /\ s.role \in Buffers /\ s.keys = NoMaster THEN [s EXCEPT !.early = {m}]
+            ELSE s, <<>>)}                                               \* undecryptable record: dropped (or kept)
   ELSE IF m.t = "APP"
   THEN IF ~Plaintext(m) \/ Dev("Epoch0AppData")
        THEN {Res([s EXCEPT !.appGot = s.appGot + 1], <<>>)}
@@ -355,7 +380,7 @@ RecvResults(s0, m) ==
           /\ ~(ClientAuth /\ s.role = "S" /\ m.t = "CV")    \* (with client authentication the CertificateVerify
                                                             \*  legitimately follows the ClientKeyExchange in clear)
   THEN {Res(s, <<>>)}        \* once keys exist only the protected Finished may advance or fail the handshake
-  ELSE HsResults(s, m)
+  ELSE UNION {EarlyFin(r) : r \in HsResults(s, m)}
 
 \* handle_retransmit: while Handshaking the last flight is resent on every tick.
 \* (A HelloVerifyRequest is stateless: it is sent in answer to a ClientHello, never on a timer.)
